@@ -6,7 +6,7 @@ import struct
 
 from vlib import env
 import tables
-from checks.common import make_replay, t_oblig, bounded_part, want, contract_sources
+from checks.common import anchored, make_replay, t_oblig, bounded_part, want, contract_sources
 from pysym.harness import run_cases
 
 LEVEL = 'proof'
@@ -27,9 +27,11 @@ def main(run):
     env.setup(pyx=True)
     from contracts import isobits, query as Q
     import chython.algorithms.isomorphism as iso
-    for k, t in isobits.region_texts().items():
-        run.under_contract('chython/algorithms/isomorphism.py' if k != 'pyx_tests' else 'chython/algorithms/_isomorphism.pyx', k, t)
+    with anchored(run, 'C09/regions'):
+        for k, t in isobits.region_texts().items():
+            run.under_contract('chython/algorithms/isomorphism.py' if k != 'pyx_tests' else 'chython/algorithms/_isomorphism.pyx', k, t)
     if want(run, 'T'):
+      with anchored(run, 'C09/T'):
         # struct formats == packed struct sizes of the .pyx
         from cyx import translate, runtime
         tree, text, decls, structs = translate.build(env.read('chython/algorithms/_isomorphism.pyx'))
@@ -62,6 +64,7 @@ def main(run):
                     what=f'any-metal query vs {cls.__name__} (Z={z}): compiled mask test {fast}, Python __eq__ {slow}, reference {"metal" if z not in Q.NONMETALS else "non-metal"}',
                     witness={'element': cls.__name__, 'Z': z, 'mask_test': fast, 'python_eq': slow})
     if want(run, 'P'):
+      with anchored(run, 'C09/P'):
         run_cases(run, 'contracts.isobits', engine='P/X')
     bounded_part(run, 'C09')
     run.assume('documented layout domain: Z 1..118, isotope offset -8..+8 relative to mdl_isotope, charge -4..4, implicit hydrogens 0..4 (known), '
